@@ -86,6 +86,9 @@ def run(ctx):
     ctx.guard("R01.6", "in-attribute", lambda: in_attribute_flag_rule(ctx, "R01.6"))
     ctx.guard("R01.6", "end-runs/html", lambda: tr.end_runs_before_eof(ctx, "R01.6", "html"))
     ctx.guard("R01.6", "charref-start-states", lambda: charref_start_states_rule(ctx, "R01.6"))
+    ctx.rule("R01.9", "= R08.2: the SIMD scan of the data state, its scalar tail and the small-char set stop at the same characters (a NUL inside a full 16-byte block is a token of its own)")
+    from .C08 import r08_2
+    ctx.guard("R01.9", "simd-stop-set", lambda: ctx.under("R01.9", lambda: r08_2(ctx)))
     ctx.rule("R01.8", "= R14.12 for the HTML tokenizer: the character reference states as transcribed from the standard")
     from . import charrefspec as _crs
     ctx.guard("R01.8", "charref-machine", lambda: _crs.charref_machine(ctx, "R01.8", "html"))
